@@ -183,7 +183,8 @@ CHECKS = {
         text="Bounded symbolic verification: each of the 6 registered hedges is executed on a symbolic degree; formula, range, fixed "
              "points, monotonicity, very<=x<=somewhat, inverse pairs and involution are SMT queries over all reals in [0,1]; the 0.5 "
              "branch of extremely/seldom is decided bit-exactly over all doubles.",
-        note=NOTE_R + "Inverse/involution laws are real-arithmetic claims (false by rounding in floats).",
+        note=NOTE_R + "Inverse/involution laws are real-arithmetic claims (false by rounding in floats). Mode F: every hedge equals the documented "
+             "formula evaluated in IEEE arithmetic (exact fp.mul/fp.sqrt) for every double in [0,1].",
         ref="DESIGN.md §2 C05"),
     "C09": dict(
         text="Bounded symbolic verification: the fuzzy set is an abstract term returning r fresh symbolic memberships (the property's "
@@ -206,7 +207,8 @@ CHECKS = {
              "operands and the documented formula and every norm law of the statement is one SMT query over all reals in [0,1]; "
              "the add/compare-only norms are additionally decided bit-exactly over all doubles in [0,1] (z3 FloatingPoint). "
              "This covers every operand value, which the quarter-grid tables of the test-suite cannot.",
-        note=NOTE_R + "Rounding of the multiplicative norms is outside the claim.",
+        note=NOTE_R + "Mode F: bit-exact equality with the documented formula in the documented order for every norm (exact fp.mul/fp.div for the "
+             "multiplicative ones); range/commutativity in floats only for the add/compare norms (a+b-ab may exceed 1 by an ulp: not claimed).",
         ref="DESIGN.md §2 C04"),
 }
 
